@@ -26,7 +26,10 @@ def encString (bs : Bytes) : Outcome Bytes :=
 def encDString (bs : Bytes) (st : EncSt) : Outcome (Bytes × EncSt) :=
   match indexOf? st bs with
   | some i => .ok (zz (-((i : Int) + 1)), st)
-  | none => (encString bs).bind fun b => .ok (b, st ++ [bs])
+  | none =>
+    -- `last_string_id.next()`: the i32 id counter overflows after 2^31 - 1 strings
+    if st.length < 2 ^ 31 - 1 then (encString bs).bind fun b => .ok (b, st ++ [bs])
+    else .panic "attempt to add with overflow"
 
 def intInRange (w : Nat) (signed : Bool) (n : Int) : Bool :=
   if signed then decide (-((256 ^ w / 2 : Nat) : Int) ≤ n ∧ n < ((256 ^ w / 2 : Nat) : Int))
